@@ -1541,6 +1541,11 @@ func (a *Activation) varsAt(b *ssa.BasicBlock, atEnd bool, override map[ssa.Valu
 				if ins.Comment != "" {
 					consider(ins.Comment, ins, d+i, false)
 				}
+			case *ssa.Alloc:
+				// a source variable that lives in memory is always denoted by its cell
+				if ins.Comment != "" && ins.Comment != "complit" && ins.Comment != "varargs" && !(same && !atEnd) {
+					consider(ins.Comment, ins, (1<<40)+d+i, true)
+				}
 			case *ssa.DebugRef:
 				if same && !atEnd {
 					continue
@@ -1552,7 +1557,11 @@ func (a *Activation) varsAt(b *ssa.BasicBlock, atEnd bool, override map[ssa.Valu
 				if _, isVar := obj.(*types.Var); !isVar {
 					continue
 				}
-				consider(obj.Name(), ins.X, d+i, ins.IsAddr)
+				rank := d + i
+				if ins.IsAddr {
+					rank += 1 << 40 // a variable that lives in memory is always denoted by its cell
+				}
+				consider(obj.Name(), ins.X, rank, ins.IsAddr)
 			}
 		}
 	}
@@ -1580,6 +1589,10 @@ func (a *Activation) varsAt(b *ssa.BasicBlock, atEnd bool, override map[ssa.Valu
 			if v.K == KLoc && v.Loc.K == LLocal && a.curSt != nil {
 				lv, ok := a.curSt.locals[v.Loc.Local]
 				return lv, ok
+			}
+			if v.K == KScalar && namedStruct(v.T) != nil {
+				// a struct-typed local: the name denotes (a pointer to) the object, so x.f and x != nil work
+				return v, true
 			}
 			return Val{}, false
 		}
@@ -2107,10 +2120,10 @@ func (a *Activation) ghostAt(anchor string, st *State, rc string, results []Val,
 			a.frameFieldIf(key, obj.S, cond, st, rc, a.fn.Pos())
 			arr := x.fieldArr(st, key)
 			es := c.sortOf(elem)
-			k := env.evalInt(g.Idx)
+			k := env.eval(g.Idx).S
 			v := env.eval(g.V)
 			row := sel(arr, obj.S)
-			st.fields[key] = c.Define("H_"+key, arrSort("Int", arrSort("Int", es)), store(arr, obj.S, ite(cond, store(row, k, v.S), row)))
+			st.fields[key] = c.Define("H_"+key, arrSort("Int", arrSort(c.sortOf(x.ghostKeyType(n, gf)), es)), store(arr, obj.S, ite(cond, store(row, k, v.S), row)))
 		case "field":
 			obj := env.eval(g.X)
 			n := namedStruct(obj.T)
@@ -2131,12 +2144,14 @@ func (a *Activation) ghostAt(anchor string, st *State, rc string, results []Val,
 				var rowT string
 				if v.K == KLambda {
 					// new row defined pointwise
-					row := c.Fresh("grow", arrSort("Int", es))
+					kt := x.ghostKeyType(n, gf)
+					ks := c.sortOf(kt)
+					row := c.Fresh("grow", arrSort(ks, es))
 					i := c.boundVar("i")
 					ch := v.Lam.Env.child()
-					ch.vars[v.Lam.Vars[0].Name] = intVal(i)
+					ch.vars[v.Lam.Vars[0].Name] = scalar(kt, i)
 					body := ch.eval(v.Lam.Body)
-					c.Assume(fmt.Sprintf("(forall ((%s Int)) (! (= (select %s %s) %s) :pattern ((select %s %s))))", i, row, i, body.S, row, i))
+					c.Assume(fmt.Sprintf("(forall ((%s %s)) (! (= (select %s %s) %s) :pattern ((select %s %s))))", i, ks, row, i, body.S, row, i))
 					rowT = row
 				} else if v.K == KMapView && v.Map == nil {
 					rowT = v.S
@@ -2144,7 +2159,7 @@ func (a *Activation) ghostAt(anchor string, st *State, rc string, results []Val,
 					efail("ghost map assignment needs a lambda or another ghost map")
 				}
 				nv = store(arr, obj.S, ite(cond, rowT, sel(arr, obj.S)))
-				st.fields[key] = c.Define("H_"+key, arrSort("Int", arrSort("Int", es)), nv)
+				st.fields[key] = c.Define("H_"+key, arrSort("Int", arrSort(c.sortOf(x.ghostKeyType(n, gf)), es)), nv)
 			} else {
 				v := env.eval(g.V)
 				es := c.sortOf(elem)
